@@ -24,7 +24,10 @@ def build():
   ]
   return Property(
     'C04', units,
-    bounded=[Bounded('C04/native/stop_placement_cross_check', 'replay/writer_native.py',
+    bounded=[Bounded('C04/native/cache_side_schedules', 'replay/cache_sched_native.py', ['--depth', '2', '--only', 'sched-undrainable,sched-conservation'], ['--depth', '3', '--only', 'sched-undrainable,sched-conservation'],
+                     "the real _MetricCache under deterministic two-thread schedules (the other thread runs at every line step of a store / drain_metric at which the lock is not held), all seven strategies: afterwards repeated draining -- what the writer's final pass does -- hands out every accepted datapoint; drain_metric never reports an empty cache while datapoints are held",
+                     "the writer-loop schedules of the clause below treat cache operations as atomic; this one interleaves inside them"),
+             Bounded('C04/native/stop_placement_cross_check', 'replay/writer_native.py',
                      ['--what', 'shutdown', '--inflight', '1'], ['--what', 'shutdown', '--inflight', '2', '--thorough'],
                      "the real writeForever with a virtual clock, a storage double without faults and a sys.settrace scheduler: 4 initial workloads x every placement of 0..1 stores by the 'storing thread' and of the stop (thorough: also two stores, placed at every third step) (shutdownModifyUpdateSpeed, then reactor.running = False) over the line steps of one full pass plus 22 further steps (idle sleep, next pass) x strategies sorted / timesorted / bucketmax / none (thorough: all seven) x create limit, update limit, MAX_UPDATES_PER_SECOND_ON_SHUTDOWN set / unset x MIN_TIMESTAMP_LAG 0 / 5 with datapoints younger than the lag: writeForever returns, the cache is empty and every datapoint stored before the stop was taken by the writer",
                      "cross-check on CPython of the loop-exit argument (exit of writeCachedDataPoints means nothing eligible; final pass after the loop); line granularity in writer.py, cache operations atomic")],
